@@ -89,6 +89,17 @@ def directed_trees(rng):
         for cap in ("first", "one", "random", "all"):
             wl = dict(words=[o(w) for w in ws], nolist=0, len=2, cap=cap, sep="char", sepChar=o("-"))
             out.append(dict(kind="wl", wl=wl, maxTrials=1, failRateOne=1, mode="tree", paths=0, maxLeaves=20000, tag="wl-directed-uncap", reps=0))
+    # separators and words made of characters that are not "printable" (NBSP, tab, zero-width and ideographic space): they are
+    # separators/words like any other
+    two_words = [o(w) for w in rng.sample(CAPITALISABLE, 2)]
+    for sv in (dict(sep="char", sepChar=[0xA0]), dict(sep="char", sepChar=[9]), dict(sep="char", sepChar=[0x200B, 0x3000]),
+               dict(sep="customlist", sepChar=[], sepVals=[[0x2009], o("-")]),
+               dict(sep="recipe", sepChar=[], sepRecipe=dict(len=1, allow=0, require=0, exclude=0, allowChars=[0xA0, 0x2009], requireSets=[], excludeChars=[]))):
+        wl = dict(words=two_words, nolist=0, len=3, cap=rng.choice(["none", "first"]))
+        wl.update(sv)
+        out.append(dict(kind="wl", wl=wl, maxTrials=1, failRateOne=1, mode="tree", paths=0, maxLeaves=20000, tag="wl-directed-nonprinting", reps=0))
+    wl = dict(words=[o("one"), [0xA0], [0x200B, 0x200B], o("two")], nolist=0, len=2, cap="none", sep="char", sepChar=o("-"))
+    out.append(dict(kind="wl", wl=wl, maxTrials=1, failRateOne=1, mode="tree", paths=0, maxLeaves=20000, tag="wl-directed-nonprinting", reps=0))
     return out
 
 
